@@ -111,7 +111,7 @@ EXPORT errno_t _wcscoll_s_chk(const wchar_t *restrict dest, rsize_t dmax,
         return RCNEGATE(ESZEROL);
     }
     if (destbos == BOS_UNKNOWN) {
-        CHK_DMAX_MAX("wcscoll_s", RSIZE_MAX_STR)
+        CHK_DMAX_MAX("wcscoll_s", RSIZE_MAX_WSTR)
         BND_CHK_PTR_BOUNDS(dest, destsz);
     } else {
         CHK_DESTW_OVR("wcscoll_s", destsz, destbos)
